@@ -64,6 +64,10 @@ void libxmp_hmn_play_extras(struct context_data *ctx, struct channel_data *xc, i
 		ce->datapos = 0;
 	}
 
+	/* external (smix) samples have no His Master's Noise instrument data */
+	if (xc->ins < 0 || xc->ins >= m->mod.ins)
+		return;
+
 	xxi = &m->mod.xxi[xc->ins];
 	pos = ce->datapos & 63; /* TODO: how are out of bounds values handled? */
 	waveform = HMN_INSTRUMENT_EXTRAS(m->mod.xxi[xc->ins])->data[pos];
